@@ -161,13 +161,16 @@ def json_values(full=True):
         vals.append([i, i])
     vals.append({"tab\t": "nl\n", "é": "\U0001F600"})
     vals.append({"key": "x", "integrity": None})
+    # records far longer than any buffer or window a reader might use (one index record = one line)
+    vals.append({"blob": "q" * 20000, "after": [1, 2, 3]})
+    vals.append(["é" * 9000, {"deep": ["x" * 40000]}])
     return vals
 
 
 TIMES = [0, 1, 999, 10 ** 12, 2 ** 53 - 1, 2 ** 53, 2 ** 53 + 1, 2 ** 63 - 1, 2 ** 63, 2 ** 63 + 1, 2 ** 64 - 1, 2 ** 64,
          2 ** 64 + 1, 2 ** 127, 2 ** 128 - 1]
 
-RAW_METAS = [b"", b"\x00", b"\xff", bytes(range(256)), b"\xff" * 4096]
+RAW_METAS = [b"", b"\x00", b"\xff", bytes(range(256)), b"\xff" * 4096, bytes(range(256)) * 100]
 
 
 def key_family():
